@@ -80,6 +80,27 @@ PROPS = {
         "assumptions": COMMON_ASSUMPTIONS + ["tokio read_exact = loop of reads until the buffer is full or EOF"],
         "explanation": "auth model theorems + auth correspondence",
     },
+    "C07": {
+        "level": "proof",
+        "lean_modules": ["AnyTLS.Props.C07"],
+        "groups": [{"group": "dest", "quick_cases": 3000, "thorough_cases": 60000}],
+        "rule": "one case = one destination op or one resolver history: (a) real read_socks_addr / read_initial_request on a real StreamReader fed with the header cut into up to 5 chunks (incl. empty chunks), all address types, domain lengths {1,2,3,9,63,64,254,255}, ports {0,1,80,255,256,443,65534,65535,random}, IPv4-mapped IPv6, truncations, corrupted type/length bytes, non-UTF-8 names, channel open or closed; "
+                "(b) real Client::create_proxy_stream on a pool pre-seeded with an in-memory session, destination bytes captured from the wire, domains of 1..400 bytes; (c) resolver histories of 3-14 seed/expire/resolve/literal/localhost ops over 3 seeded hosts and 8 ports; every cut position of a short header as fixed cases; non-trivial = every case; distinct by SHA-1 of the op lines",
+        "level_text": "kernel-checked theorems: for every well-formed destination, every tail and *every* reader state whose deliverable bytes are the encoding followed by the tail (i.e. every fragmentation across frames and reads) the server-side reader returns exactly that destination and leaves exactly the tail (dest_roundtrip, udp_request_roundtrip, via the fragmentation-independence of read_exact), names over 255 bytes are refused (encode_rejects_long), and for every cache state, history and resolver answer the address returned for (H,P) has port P and an IP of H (resolve_port, resolve_ip_of_host). Tied to the code by the dest differential run (real decoders, real client encoder, real resolver with seeded cache) and reference decoders as oracle",
+        "level_note": "trusted: Lean kernel, extract.py, harness+driver glue; std's Ipv4Addr/Ipv6Addr Display/FromStr are assumed mutually inverse (exercised on every generated address); the OS resolver's answers and routing are not modelled (a miss's lookup answer is an input of the model); the dial itself is exercised by the e2e group",
+        "assumptions": COMMON_ASSUMPTIONS,
+        "explanation": "destination/resolver model theorems + dest correspondence",
+    },
+    "C15": {
+        "level": "proof",
+        "lean_modules": ["AnyTLS.Props.C15"],
+        "groups": [{"group": "dest", "quick_cases": 3000, "thorough_cases": 60000}],
+        "rule": "as C07's dest group; the C15 ops are dgenc (both encoders, sizes {0,1,2,255,256,1472,65506,65507,65535,65536,70000}) and dgdec (both readers on a real StreamReader fed with 1-5 datagrams of sizes {1..40,255,256,1472,65507,65535}, zero-length terminators, truncations, cut into up to 5 chunks incl. inside the length prefix); non-trivial = every case; distinct by SHA-1 of the op lines",
+        "level_text": "kernel-checked theorems: every sequence of non-empty datagrams of up to 65535 bytes is read back as exactly the same datagrams, one result each, in order, for every reader state denoting the encoded stream, i.e. every fragmentation (dgram_roundtrip, dgram_roundtrip_one), nothing is produced from an empty stream (readDgram_empty), the encoders refuse oversize and emit an exact prefix (encode_dgram_exact), a zero prefix is the end marker (zero_prefix_is_end), a datagram of <= 65507 bytes rides in one data frame (dgram_single_frame), the initial request round-trips (initial_request_roundtrip); Gen obligation gen_udp_max. Delivery of the byte stream itself is C01. Tied to the code by the dest differential run on the real encoders/readers with a reference splitter as oracle",
+        "level_note": "trusted: Lean kernel, extract.py, harness+driver glue; kernel UDP behaviour (drops, the relay's IPv4-only bind, replies accepted from any source address) is not modelled; socket delivery is exercised by the e2e group",
+        "assumptions": COMMON_ASSUMPTIONS,
+        "explanation": "UDP framing theorems + dest correspondence",
+    },
 }
 
 NOT_YET = {}
